@@ -287,8 +287,10 @@ def run(ctx):
         per = max(1, 1500 // len(strata))
         calls = [a for k in sorted(strata) for a in rng.sample(strata[k], min(per, len(strata[k])))]
     ev, meta = [], []
-    # instances pinned by known_findings.json are evaluated in every run (a known finding is reported on every run, with its own key)
-    pinned = [(dict(cls='Stiefel', method='polar', d=6, r=6, opt=0, cplx=False, p32=True, batch=3, mag=1), 14627)]
+    # instances of repaired findings stay pinned as regression inputs (6c0e751: single-precision polar map); a finding with status
+    # 'known' in known_findings.json would be evaluated here in every run and reported as KNOWN-FINDING
+    pinned = [(dict(cls='Stiefel', method='polar', d=6, r=6, opt=0, cplx=False, p32=True, batch=3, mag=1), 14627),
+              (dict(cls='Stiefel', method='polar', d=4, r=4, opt=0, cplx=False, p32=True, batch=1, mag=2), 5824)]
     for i, a in enumerate([p[0] for p in pinned] + calls):
         ctx.case(('manifold',) + tuple(sorted(a.items())))
         try:
